@@ -2,9 +2,9 @@ SPECIFICATION Spec
 CONSTANTS
   Cfg0 <- MCfg
   Types <- MTypes
-  MaxEv = 3
+  MaxEv = 2
   MaxAct = 3
-  Budget = 2
+  Budget = 1
   NDrv = 2
   DrvBudget = 2
   MaxDepth = 2
